@@ -108,6 +108,8 @@ func (p *parser) advance() bool {
 			// ignore
 
 		} else if char == '#' {
+			// only a comment on a line of its own is documentation
+			ownLine := isBlank(p.input[p.lineStart : p.position-1])
 			// one optional space separates '#' from the comment text
 			if p.next() != ' ' {
 				p.backup()
@@ -119,6 +121,10 @@ func (p *parser) advance() bool {
 					p.backup()
 					break
 				}
+			}
+			if !ownLine {
+				// the newline is left to the branch above, which drops the pending documentation
+				continue
 			}
 			if p.lastComment.Len() > 0 {
 				p.lastComment.WriteByte('\n')
@@ -132,6 +138,8 @@ func (p *parser) advance() bool {
 			// consume the newline that ends the comment; at end of input there is none
 			if p.next() != '\n' {
 				p.backup()
+			} else {
+				p.lineStart = p.position
 			}
 
 		} else {
@@ -141,6 +149,15 @@ func (p *parser) advance() bool {
 	}
 
 	return p.position < len(p.input)
+}
+
+func isBlank(s string) bool {
+	for i := 0; i < len(s); i++ {
+		if s[i] != ' ' && s[i] != '\t' && s[i] != '\r' {
+			return false
+		}
+	}
+	return true
 }
 
 func (p *parser) advanceOnLine() {
